@@ -18,9 +18,14 @@ def one(name):
     wt = os.path.join(tmp, "wt")
     try:
         sh(["git", "-C", "/repo", "worktree", "add", "--detach", wt, "HEAD"])
+        eq = os.path.join(td, "equiv.py")
+        before = sh(["/venv/bin/python", eq, wt]) if os.path.exists(eq) else None
         r = sh(["git", "-C", wt, "apply", os.path.join(td, "patch.diff")])
         if r.returncode:
             return name, {"applies": False, "error": r.stderr[-300:]}
+        after = sh(["/venv/bin/python", eq, wt]) if os.path.exists(eq) else None
+        equiv = None if before is None else {"exit_before": before.returncode, "exit_after": after.returncode, "same_output": before.stdout == after.stdout,
+                                             "output_bytes": len(before.stdout)}
         t = sh(["/venv/bin/python", "-m", "pytest", "-q", "-p", "no:cacheprovider", "--timeout=900", "tests"], cwd=wt)
         tail = [l for l in t.stdout.splitlines() if " passed" in l or " failed" in l][-1:] or ["?"]
         failed = sorted(l.split(" - ")[0] for l in t.stdout.splitlines() if l.startswith(("FAILED", "ERROR")))
@@ -31,7 +36,10 @@ def one(name):
             if c.returncode:
                 res[p] = {"exit": c.returncode, "lines": [l.strip()[:300] for l in c.stdout.splitlines() if l.startswith(("  C", "ANALYSIS"))][:3]}
         head = sh(["git", "-C", "/repo", "rev-parse", "--short", "HEAD"]).stdout.strip()
-        return name, {"applies": True, "applies_to": head, "tests": tail[0], "tests_failed": len(failed), "alarms": res}
+        out = {"applies": True, "applies_to": head, "tests": tail[0], "tests_failed": len(failed), "alarms": res}
+        if equiv is not None:
+            out["equivalence_script"] = equiv
+        return name, out
     finally:
         sh(["git", "-C", "/repo", "worktree", "remove", "--force", wt])
         shutil.rmtree(tmp, ignore_errors=True)
@@ -45,7 +53,7 @@ def main():
             m = json.load(open(mp)) if os.path.exists(mp) else {}
             m["verified"] = r
             json.dump(m, open(mp, "w"), indent=1)
-            print(name, "applies=%s" % r.get("applies"), r.get("tests"), "alarms=%s" % sorted(r.get("alarms", {})))
+            print(name, "applies=%s" % r.get("applies"), r.get("tests"), "alarms=%s" % sorted(r.get("alarms", {})), "equiv=%s" % (r.get("equivalence_script") or {}).get("same_output"), flush=True)
 
 
 main()
